@@ -301,7 +301,7 @@ def run(ctx: Check) -> int:
                 "least two optional parts, or the condition has a unit or a multi-digit number.")
 
     corpus = load_corpus("C18")
-    wf = [gen_line(rng, units) for _ in range(ctx.n(2000, 100000))]
+    wf = [gen_line(rng, units) for _ in range(ctx.n(1500, 100000))]
     # every operator x every supported unit x a few numbers, as bare conditions
     conds = []
     for ops in (COND_OPS, ["="]):
@@ -318,7 +318,7 @@ def run(ctx: Check) -> int:
         ops = rng.choice([COND_OPS, ["="]])
         c = gen_cond(rng, ops, units)
         conds.append({"ops": ops, "part": c["text"] + rng.choice(["", " ", "  "]), "cond": c})
-    near = [{"line": mutate(rng, rng.choice(wf)["line"])} for _ in range(ctx.n(1000, 50000))] + \
+    near = [{"line": mutate(rng, rng.choice(wf)["line"])} for _ in range(ctx.n(700, 50000))] + \
            [{"line": pc.rand_unicode_line(rng, 16).replace("\n", "")} for _ in range(ctx.n(500, 30000))]
     alpha = ["5", "2", "3", ".", "e", "+", "-", "m", " "]
     rhs_wf, rhs_ill = [], []
@@ -353,7 +353,7 @@ def run(ctx: Check) -> int:
     # everything else: agreement is recorded, a disagreement is a note
     illformed_streams(ctx, [
         ("corpus-nearmiss", [c for c in corpus if "indent" not in c], lambda c: line_op(c["line"]), lo),
-        ("line-raw-groups", wf[: ctx.n(500, 20000)], lambda c: line_op(c["line"]), lo),
+        ("line-raw-groups", wf[: ctx.n(300, 20000)], lambda c: line_op(c["line"]), lo),
         ("line-nearmiss", near, lambda c: line_op(c["line"]), lo),
         ("rhs-exhaustive-illformed", rhs_ill, lambda c: cond_op(c["ops"], c["part"]), co),
         ("cond-nearmiss", near_cond, lambda c: cond_op(c["ops"], c["part"]), co)])
